@@ -117,6 +117,23 @@ class Violation(Exception):
         self.details = details
 
 
+class attributed:
+    """Context manager: an exception raised inside is attributed to the package even if its traceback
+    does not pass through the package -- used around scipp calls that *execute a graph the package
+    built* on complete input (a graph that lacks a rule dies inside scipp's transform_coords)."""
+
+    def __init__(self, what: str):
+        self.what = what
+
+    def __enter__(self):
+        return self
+
+    def __exit__(self, et, e, tb):
+        if e is None or isinstance(e, (Violation, HarnessError)) or not isinstance(e, Exception):
+            return False
+        raise Violation("unexpected-exception:" + et.__name__, f"{self.what}: {str(e)[:300]}") from e
+
+
 class HarnessError(Exception):
     pass
 
